@@ -95,15 +95,24 @@ impl Family for Aftermath {
     fn run(&self, idx: u64, st: &mut Stats) -> Result<(), Violation> {
         let c = Self::case(idx);
         // closing without a replacement is only meaningful while the row is still empty
-        if (c.close != 0 && c.pos != 0) || (c.text_mode && c.bad != 0) {
+        if c.close != 0 && c.pos != 0 {
             st.skipped += 1;
             return Ok(());
         }
-        // text mode has no typed columns: the only refusable text value is an invalid generic one
         st.nontrivial += 1;
         st.bump("aftermath_histories");
         let cols1 = int_cols(c.n1, true);
-        let bad = if c.text_mode { Val::Myc(mysql_common::value::Value::Date(2021, 13, 1, 0, 0, 0, 0)) } else { bad_val(c.bad) };
+        // text mode has no typed columns: what can be refused there is a generic value that does
+        // not denote a date / time of day (refused before or after part of it was formatted)
+        let bad = if c.text_mode {
+            Val::Myc(match c.bad {
+                0 => mysql_common::value::Value::Date(2021, 13, 1, 0, 0, 0, 0),
+                1 => mysql_common::value::Value::Date(2024, 2, 29, 24, 0, 0, 0),
+                _ => mysql_common::value::Value::Date(2016, 12, 31, 23, 59, 60, 7),
+            })
+        } else {
+            bad_val(c.bad)
+        };
         // --- step 1: the dirtying command -------------------------------------------------
         let mut p1 = vec![WOp::Start(cols1.clone())];
         for r in 0..c.pre_rows {
@@ -231,7 +240,7 @@ impl Family for Aftermath {
             if c.text_mode { "text" } else { "binary" },
             c.n1,
             c.pre_rows,
-            if c.text_mode { "invalid generic date" } else { BADS[c.bad] },
+            if c.text_mode { ["generic date with month 13", "generic datetime with hour 24", "generic datetime with second 60"][c.bad] } else { BADS[c.bad] },
             c.pos,
             CLOSES[c.close],
             FOLLOW[c.rot],
